@@ -177,6 +177,23 @@ EXTRA5 = {
 }
 for _pid, (_t, _n) in EXTRA5.items():
     EXTRA[_pid] = (EXTRA.get(_pid, ("", ""))[0] + _t, EXTRA.get(_pid, ("", ""))[1] + _n)
+EXTRA6 = {
+ "C02": (" Interior rows on an object built on a coarser grid whose nx field was then reassigned.", ""),
+ "C03": (" The in-place ceiling on a run that follows a schedule run of the same object.", ""),
+ "C06": (" The z-factor column of build_pvt_gas is z_factor_DAK at the Sutton point of the caller's composition and gas type (dry and wet).", ""),
+ "C07": (" The oil identity on a 1 x 2 pressure array (2-D masks and row selection modelled).", ""),
+ "C08": (" The table builder with a Python-int maximum pressure (as its default is): integrand columns at the caller's temperature.", ""),
+ "C10": (" Histories on objects whose frac-face pressure is a 0-d float64 array (documented float | NDArray).", ""),
+ "C11": (" The gas methods of the Fluid facade are targets too (stand-alone gas correlations as recording stubs).", ""),
+ "C12": (" Reversed views (negative stride) through the facade's oil methods.", ""),
+ "C13": (" The c_o replay evaluates the real functions exactly at the real bubble point.", ""),
+ "C15": (" A water relative permeability that is exactly zero at one row's saturation and positive at the others.", ""),
+ "C17": (" The replay family includes a drawdown followed by a build-up (recovery peaks, then falls): final value after the last time.", ""),
+ "C18": (" The objective for a cumulative production that does not start at zero.", ""),
+ "C19": (" Three int64 pressures through every facade method.", ""),
+}
+for _pid, (_t, _n) in EXTRA6.items():
+    EXTRA[_pid] = (EXTRA.get(_pid, ("", ""))[0] + _t, EXTRA.get(_pid, ("", ""))[1] + _n)
 for _pid, (_t, _n) in EXTRA.items():
     CHECKS[_pid]["text"] += _t
     CHECKS[_pid]["note"] += _n
